@@ -618,7 +618,8 @@ class XsdAtomic(XsdSimpleType):
         elif not isinstance(value, self.python_type):
             try:
                 return self.to_python(value)  # type: ignore[arg-type]
-            except (ValueError, DecimalException, TypeError):
+            except (ValueError, ArithmeticError, TypeError):
+                # ArithmeticError: decimal exceptions and out of range values (e.g. a huge year)
                 if strict:
                     raise
         elif self.is_qname():
